@@ -121,6 +121,10 @@ def check_read(case, ctx):
             os.unlink(path)
     got = ctx.call("snapshot", gen.snapshot, m)
 
+    _compare(ctx, got, parsed, tempo, override0)
+
+
+def _compare(ctx, got, parsed, tempo, override0):
     # ---- objects ------------------------------------------------------------
     exp_h = sorted(parsed["hits"], key=lambda d: (d["column"], d["offset"]))
     exp_H = sorted(parsed["holds"], key=lambda d: (d["column"], d["offset"]))
@@ -152,6 +156,8 @@ def check_read(case, ctx):
     for k, v in parsed["header"].items():
         if k in ("TITLE", "ARTIST", "PLAYLEVEL", "LNOBJ", "BPM"):
             continue
+        if v == "" and got["misc"].get(k) in (None, ""):
+            continue  # a header key without a value carries nothing (real files: `#STAGEFILE`)
         if got["misc"].get(k) != v:
             ctx.fail("other-header", f"#{k}: got={got['misc'].get(k)!r} expected={v!r}")
     # initial tempo: re-seating rewrites the tempo of a segment that ends inside a measure, so the
@@ -168,6 +174,36 @@ def check_read(case, ctx):
         ctx.label("initial-bpm-checked")
 
 
+
+
+BUNDLED_DIR = os.path.join(os.environ.get("VERIF_REPO", "/repo"), "rsc", "maps", "bms")
+
+
+def bundled_cases(tier):
+    for fn in sorted(os.listdir(BUNDLED_DIR)) if os.path.isdir(BUNDLED_DIR) else []:
+        yield dict(file=fn)
+
+
+def check_bundled(case, ctx):
+    """Real charts shipped with the repository, read with the default (BME) layout and compared with the reference
+    interpreter.  Files that use the time-signature channel 02 are outside the quantifier (4/4) and are skipped."""
+    path = os.path.join(BUNDLED_DIR, case["file"])
+    with open(path, "rb") as fh:
+        data = fh.read()
+    if any(ln[:1] == b"#" and ln[1:4].isdigit() and ln[4:6] == b"02" for ln in data.split(b"\n")):
+        ctx.exclude("bundled file uses channel 02 (time signature): outside the 4/4 domain")
+    parsed = ref.parse(data, "BME")
+    ctx.harness(not parsed["conflicts"], f"reference reports conflicts on {case['file']}: {parsed['conflicts']}")
+    from reamber.bms.BMSMap import BMSMap
+
+    ctx.label("bundled=" + case["file"])
+    ctx.nt(bool(parsed["holds"]) or len(parsed["tempo"]) > 1)
+    m = ctx.call("read_file", BMSMap.read_file, path, gen.channel_config("BME"))
+    got = ctx.call("snapshot", gen.snapshot, m)
+    tempo = [(F(b), v) for b, v in parsed["tempo"]]
+    _compare(ctx, got, parsed, tempo, False)
+
+
 SUBS = [
     Sub(
         "read",
@@ -177,6 +213,7 @@ SUBS = [
         shards={"quick": 16, "thorough": 16},
         fuzz={"thorough": 150},
     ),
+    Sub("bundled", check_bundled, enumerate=bundled_cases, shards={"quick": 3, "thorough": 3}),
 ]
 
 MANIFEST = dict(
